@@ -1,7 +1,7 @@
 import WsVerif.Model.Proto
 import WsVerif.Model.History
 /-! Driver op for operation histories (C17, C18): `history n op…` with ops encoded as tokens
-    `sd:<name>` `sa:<name>` `ee` `ad` `pt:<mk>:<mth>` `al:<key>` `us` `rd`; returns, per step, `-` or
+    `sd:<name>` `sa:<name>` `ee` `ad` `pt:<mk>:<mth>` `al:<key>` `us` `rd` `ro:<v>`; returns, per step, `-` or
     `efthVer:dirVer:attrKnown` under the repaired semantics. -/
 namespace WS.Ops.History
 open WS WS.Proto WS.History
@@ -19,11 +19,15 @@ def parseOp (t : String) : Except String Op :=
   | ["al", k] => pure (.attrLookup k)
   | ["us"] => pure .unknownStat
   | ["rd"] => pure .read
+  | ["ro", v] => match v.toNat? with
+    | some x => pure (.readObs x)
+    | none => throw "bad ro"
   | _ => throw s!"bad op {t}"
 
 def showObs : Option Obs → String
   | none => "-"
-  | some o => s!"{o.efth}:{o.dir}:{if o.attrKnown then 1 else 0}:{o.freq}"
+  | some (.stat e d f k) => s!"{e}:{d}:{if k then 1 else 0}:{f}"
+  | some (.reader v) => s!"r{v}"
 
 def opHistory (old : Bool) : P String := do
   let n ← nat
